@@ -13,6 +13,7 @@ def errStr : Err → String
   | .dataInvalid => "data-invalid"
   | .garbled => "garbled"
   | .emptyArray => "empty-array"
+  | .notRagged => "not-ragged"
 
 def getSlice (j : Json) : Except String PySlice := do
   match ← getArr j with
@@ -104,6 +105,7 @@ def getOp (j : Json) : Except String (Op Rat) := do
   | "iopAt" => pure (.iopAt (← getSel (← field j "r")) (← getCSel (← field j "c")) (← unFn j))
   | "binop" => pure (.binop (← unFn j))
   | "binop2" => pure (.binop2 (← binFn (← getStr (← field j "f"))) (← getList (getList getRat) (← field j "o")))
+  | "npLeft" => pure (.npLeft (← unFn j) (← getBool (← field j "rebind")))
   | "copyCtor" => pure (.copyCtor (← getBool (← field j "viaFlat")) (← getBool (← field j "np")))
   | _ => throw s!"bad C06 op kind {k}"
 
@@ -143,7 +145,8 @@ def getCfg (j : Json) : Except String Cfg := do
   pure { readsFix := ← getBool (← field j "reads"),
          rowViewsFix := ← getBool (← field j "rowviews"),
          arrayViewsFix := ← getBool (← field j "arrayviews"),
-         appendFix := ← getBool (← field j "append") }
+         appendFix := ← getBool (← field j "append"),
+         priorityFix := ← getBool (← field j "priority") }
 
 def initState (cfg : Cfg) (rows : List (List Rat)) (ctor : String) : Except String (Except Err (State Rat)) :=
   match ctor with
